@@ -33,6 +33,12 @@ class CutPath(BaseException):
 _UF = {}
 
 
+_EXACT = {("sin", 0): 0, ("cos", 0): 1, ("tan", 0): 0, ("exp", 0): 1, ("sqrt", 0): 0,
+          ("sqrt", 1): 1, ("log", 1): 0, ("atan", 0): 0, ("asin", 0): 0, ("expm1", 0): 0,
+          ("cbrt", 0): 0, ("cbrt", 1): 1, ("sinh", 0): 0, ("cosh", 0): 1, ("tanh", 0): 0,
+          ("erf", 0): 0, ("log1p", 0): 0}
+
+
 def uf_decl(name, arity):
     key = (name, arity)
     if key not in _UF:
@@ -43,7 +49,12 @@ def uf_decl(name, arity):
 def uf(name, *args):
     """Apply the real-valued uninterpreted function *name* to proxies/numbers."""
     f = uf_decl(name, len(args))
-    return Sym(f(*[to_real(lift(a)) for a in args]))
+    ts = [_simp(to_real(lift(a))) for a in args]
+    if len(ts) == 1 and z3.is_rational_value(ts[0]):
+        v = ts[0].as_fraction()
+        if (name, v) in _EXACT:
+            return Sym(z3.RealVal(_EXACT[(name, v)]))
+    return Sym(f(*ts))
 
 
 # --------------------------------------------------------------------------
@@ -395,7 +406,10 @@ class Explorer:
     """DFS over branch decisions by re-execution, feasibility decided by z3."""
 
     def __init__(self, timeout_ms=20000, max_paths=20000, max_forks=400,
-                 int_range=64):
+                 int_range=64, abstract=False):
+        # abstract=True: the feasibility solver sees UF applications as opaque
+        # constants (over-approximation: possibly more paths, never fewer)
+        self._ab = Abstractor() if abstract else (lambda e: e)
         self.timeout_ms = timeout_ms
         self.max_paths = max_paths
         self.max_forks = max_forks
@@ -413,7 +427,7 @@ class Explorer:
     def _check(self, *extra):
         t = time.time()
         self.sol.push()
-        self.sol.add(*extra)
+        self.sol.add(*[self._ab(e) for e in extra])
         r = str(self.sol.check())
         self.sol.pop()
         self.checks += 1
@@ -426,6 +440,17 @@ class Explorer:
             return True
         if z3.is_false(cond):
             return False
+        cid = cond.get_id()
+        if cid in self._decided:
+            return self._decided[cid]
+        if z3.is_not(cond) and cond.arg(0).get_id() in self._decided:
+            return not self._decided[cond.arg(0).get_id()]
+        r = self._decide(cond)
+        self._decided[cid] = r
+        self._keep.append(cond)
+        return r
+
+    def _decide(self, cond):
         i = self._pos
         self._pos += 1
         if i < len(self._sched):
@@ -449,17 +474,19 @@ class Explorer:
                 raise CutPath("infeasible")
             self._sched.append(b)
         c = cond if b else z3.Not(cond)
-        self.sol.add(c)
+        self.sol.add(self._ab(c))
         self._path.pc.append(c)
         self._path.forks += 1
         return b
 
-    def assume(self, cond):
-        """Add an assumption mid-path; the path is dropped if it is infeasible."""
+    def assume(self, cond, check=True):
+        """Add an assumption mid-path; the path is dropped if it is infeasible.
+        ``check=False`` skips the feasibility query (for constraints on fresh
+        symbols that are satisfiable by construction)."""
         c = _lb(cond)
-        self.sol.add(c)
+        self.sol.add(self._ab(c))
         self._path.pc.append(c)
-        if self._check() == "unsat":
+        if check and self._check() == "unsat":
             raise CutPath("infeasible")
 
     def concretize_int(self, t):
@@ -499,10 +526,12 @@ class Explorer:
                 self._sched = self._work.pop()
                 self._pos = 0
                 self._fresh = 0
+                self._decided = {}
+                self._keep = []
                 self._path = p = Path()
                 p.assume = list(assume)
                 self.sol.push()
-                self.sol.add(*assume)
+                self.sol.add(*[self._ab(a) for a in assume])
                 try:
                     p.result = fn()
                 except CutPath as e:
@@ -537,7 +566,17 @@ _PYF = {
 def evalf(t, env, funcs=None):
     """Evaluate z3 term *t* in float arithmetic.  *env*: symbol name -> float;
     *funcs*: UF name -> python callable (defaults: libm)."""
-    funcs = dict(_PYF, **(funcs or {}))
+    user = funcs
+
+    class _F:
+        def __getitem__(self, name):
+            if user is not None:
+                try:
+                    return user[name]
+                except KeyError:
+                    pass
+            return _PYF[name]
+    funcs = _F()
     cache = {}
 
     def ev(e):
@@ -672,9 +711,17 @@ def apps_of(ts, names=None):
 def axioms_for(ts):
     """Instantiated (never quantified) UF axioms of DESIGN 2.4 for the
     applications occurring in *ts*."""
+    return axioms_from_apps(apps_of(ts))
+
+
+def axioms_from_apps(apps):
     ax = []
     by = {}
-    for a in apps_of(ts):
+    seen = set()
+    for a in apps:
+        if a.get_id() in seen:
+            continue
+        seen.add(a.get_id())
         by.setdefault(a.decl().name(), []).append(a)
     for a in by.get("exp", []):
         ax.append(a > 0)
@@ -694,3 +741,56 @@ def axioms_for(ts):
         for a in by.get(name, []):
             ax.append(z3.And(a >= -1, a <= 1))
     return ax
+
+
+class Abstractor:
+    """Replace every uninterpreted-function application (arity > 0) by a fresh
+    real constant, bottom-up, syntactically equal applications (after the
+    replacement of their arguments) sharing one constant.  Validity of the
+    abstracted formula implies validity of the original (the constants are a
+    generalisation of the applications); the converse needs congruence, so a
+    ``sat`` answer on the abstraction must be re-checked on the original."""
+
+    def __init__(self):
+        self.memo = {}
+        self.table = {}
+        self.keep = []
+
+    def __call__(self, e):
+        k = e.get_id()
+        memo = self.memo
+        if k in memo:
+            return memo[k]
+        if not z3.is_app(e) or e.num_args() == 0:
+            r = e
+        else:
+            ch = [self(c) for c in e.children()]
+            d = e.decl()
+            if d.kind() == z3.Z3_OP_UNINTERPRETED:
+                key = (d.name(), tuple(c.get_id() for c in ch))
+                if key not in self.table:
+                    self.table[key] = z3.Real("uf!%s!%d" % (d.name(), len(self.table)))
+                    self.keep.extend(ch)
+                r = self.table[key]
+            else:
+                kind = d.kind()
+                if kind == z3.Z3_OP_AND:
+                    r = z3.And(*ch)
+                elif kind == z3.Z3_OP_OR:
+                    r = z3.Or(*ch)
+                elif kind == z3.Z3_OP_ADD:
+                    r = z3.Sum(ch) if len(ch) != 2 else ch[0] + ch[1]
+                elif kind == z3.Z3_OP_MUL:
+                    r = z3.Product(ch) if len(ch) != 2 else ch[0] * ch[1]
+                elif kind == z3.Z3_OP_DISTINCT:
+                    r = z3.Distinct(*ch)
+                else:
+                    r = d(*ch)
+        memo[k] = r
+        self.keep.append(e)
+        return r
+
+
+def abstract_ufs(constraints):
+    ab = Abstractor()
+    return [ab(c) for c in constraints]
